@@ -202,6 +202,16 @@ func dhtIterate(nodes []NodeInfo, key []byte, n int, fn func(node NodeInfo) (new
 	if n < 1 {
 		panic(n)
 	}
+	// seen holds every node that has ever been a candidate, so that each node is visited at most once.
+	seen := make(map[p2p.PeerID]struct{}, len(nodes))
+	uniq := nodes[:0]
+	for _, node := range nodes {
+		if _, exists := seen[node.ID]; !exists {
+			seen[node.ID] = struct{}{}
+			uniq = append(uniq, node)
+		}
+	}
+	nodes = uniq
 	for len(nodes) > 0 {
 		// TODO: use a heap
 		slices.SortFunc(nodes, func(a, b NodeInfo) bool {
@@ -221,11 +231,11 @@ func dhtIterate(nodes []NodeInfo, key []byte, n int, fn func(node NodeInfo) (new
 			if !DistanceLt(key, newNode.ID[:], node.ID[:]) {
 				continue // ignore peers that aren't actually closer
 			}
-			if !contains(nodes, newNode, func(a, b NodeInfo) bool {
-				return a.ID == b.ID
-			}) {
-				nodes = append(nodes, newNode)
+			if _, exists := seen[newNode.ID]; exists {
+				continue // already a candidate at some point; never visit a node twice
 			}
+			seen[newNode.ID] = struct{}{}
+			nodes = append(nodes, newNode)
 		}
 	}
 }
